@@ -279,6 +279,9 @@ Qed.
 Lemma last_full_nonempty : forall a, last_full a = false -> ablocks a <> [].
 Proof. intros a H E. unfold last_full in H. rewrite E in H. discriminate. Qed.
 
+(* the logical contents of an arena: its objects, in order of creation *)
+Definition aobjs (a : arena) : list nat := concat (map bobjs (ablocks a)).
+
 (* what a refused allocation may leave behind: nothing, or the two blocks of one ArenaBlock *)
 Definition leak_step (a a1 : arena) : Prop :=
   aleak a1 = aleak a \/ exists bs st, aleak a1 = (bs, am a) :: (st, am a) :: aleak a.
@@ -324,11 +327,12 @@ Proof.
   - inversion G; subst; cbn. unfold insert_at. intro X. apply app_eq_nil in X. destruct X as [_ X]. discriminate.
 Qed.
 
-Lemma arena_new_block_spec : forall a h h1 a1 ok, ainv a h -> arena_new_block a h = (h1, a1, ok) ->
+Lemma arena_new_block_spec : forall g a h h1 a1 ok, ainv a h -> arena_new_block g a h = (h1, a1, ok) ->
   ainv a1 h1 /\ am a1 = am a /\ absize a1 = absize a /\ leak_step a a1 /\
-  (ok = true -> aleak a1 = aleak a /\ ablocks a1 <> []) /\ (fuse h = None -> ok = true /\ fuse h1 = None).
+  (ok = true -> aleak a1 = aleak a /\ ablocks a1 <> []) /\ (fuse h = None -> ok = true /\ fuse h1 = None) /\
+  (g = true -> aleak a1 = aleak a) /\ aobjs a1 = aobjs a.
 Proof.
-  intros a h h1 a1 ok [[Wl Wb] I] H. unfold arena_new_block in H. unfold leak_step.
+  intros g a h h1 a1 ok [[Wl Wb] I] H. unfold arena_new_block in H. unfold leak_step.
   destruct (alloc (am a) TAG_ABLK 1 h) as [h2 [bs|]] eqn:A1.
   2:{ inversion H; subst. split; [split; [split; auto | eapply linv_throw; eauto]|].
       sp; auto; try discriminate. intros Fz. destruct (alloc_fuse_none _ _ _ _ _ _ Fz A1) as [N _]. contradiction. }
@@ -345,8 +349,8 @@ Proof.
   assert (FZ : fuse h = None -> ok2 = true /\ fuse h4 = None).
   { intros Fz. destruct (alloc_fuse_none _ _ _ _ _ _ Fz A1) as [_ F2].
     destruct (alloc_fuse_none _ _ _ _ _ _ F2 A2) as [_ F3]. eapply list_insert_nofuse; eauto. }
-  destruct ok2; inversion H; subst; clear H.
-  - split.
+  destruct ok2.
+  - inversion H; subst; clear H. split.
     + split; [split; [exact W4|]|].
       * cbn. intros E. exfalso. eapply list_insert_nonempty; eauto.
       * unfold aowned. cbn [alist ablocks aleak am]. rewrite blocks_owned_app.
@@ -354,27 +358,38 @@ Proof.
         unfold blocks_owned at 3. unfold bowned. cbn. permp.
     + sp; cbn; auto; try discriminate.
       * intros _. split; auto. destruct (ablocks a); discriminate.
-  - split.
-    + split; [split; [exact W4|]|].
-      * cbn. intros E. apply Wb. destruct (T4 eq_refl) as [[[_ [N _]] _]|[hd [_ [_ [N _]]]]]; congruence.
-      * unfold aowned. eapply linv_perm; [|exact I4]. unfold am in *. cbn [alist ablocks aleak]. rewrite ?M4. permp.
-    + sp; cbn; auto; try discriminate; try (intros Fz; destruct (FZ Fz); discriminate).
-      right. exists bs, st. unfold am. rewrite ?M4. reflexivity.
+      * unfold aobjs. cbn. rewrite map_app, concat_app. cbn. rewrite app_nil_r. reflexivity.
+  - assert (NB : lnodes l2 = [] -> ablocks a = []).
+    { intros E. apply Wb. destruct (T4 eq_refl) as [[[_ [N _]] _]|[hd [_ [_ [N _]]]]]; congruence. }
+    destruct g; inversion H; subst; clear H.
+    + (* repaired: the block is destroyed, storage first *)
+      split.
+      * split; [split; [exact W4 | exact NB]|].
+        unfold aowned, am in *. cbn [alist ablocks aleak]. rewrite ?M4. apply linv_free. apply linv_free.
+        eapply linv_perm; [|exact I4]. permp.
+      * sp; cbn; auto; try discriminate; try (intros Fz; destruct (FZ Fz); discriminate).
+    + split.
+      * split; [split; [exact W4 | exact NB]|].
+        unfold aowned. eapply linv_perm; [|exact I4]. unfold am in *. cbn [alist ablocks aleak]. rewrite ?M4. permp.
+      * sp; cbn; auto; try discriminate; try (intros Fz; destruct (FZ Fz); discriminate).
+        right. exists bs, st. unfold am. rewrite ?M4. reflexivity.
 Qed.
 
-Lemma arena_new_obj_spec : forall a osz h h1 a1 ok, ainv a h -> arena_new_obj a osz h = (h1, a1, ok) ->
+Lemma arena_new_obj_spec : forall g a osz h h1 a1 ok, ainv a h -> arena_new_obj g a osz h = (h1, a1, ok) ->
   ainv a1 h1 /\ am a1 = am a /\ absize a1 = absize a /\ leak_step a a1 /\ (ok = true -> aleak a1 = aleak a) /\
-  (fuse h = None -> ok = true /\ fuse h1 = None).
+  (fuse h = None -> ok = true /\ fuse h1 = None) /\
+  (g = true -> aleak a1 = aleak a) /\ (ok = false -> aobjs a1 = aobjs a).
 Proof.
-  intros a osz h h1 a1 ok V H. unfold arena_new_obj in H.
-  assert (R : forall h5 a2 okr, (if last_full a then arena_new_block a h else (h, a, true)) = (h5, a2, okr) ->
+  intros g a osz h h1 a1 ok V H. unfold arena_new_obj in H.
+  assert (R : forall h5 a2 okr, (if last_full a then arena_new_block g a h else (h, a, true)) = (h5, a2, okr) ->
      ainv a2 h5 /\ am a2 = am a /\ absize a2 = absize a /\ leak_step a a2 /\
-     (okr = true -> aleak a2 = aleak a /\ ablocks a2 <> []) /\ (fuse h = None -> okr = true /\ fuse h5 = None)).
+     (okr = true -> aleak a2 = aleak a /\ ablocks a2 <> []) /\ (fuse h = None -> okr = true /\ fuse h5 = None) /\
+     (g = true -> aleak a2 = aleak a) /\ aobjs a2 = aobjs a).
   { intros h5 a2 okr E. destruct (last_full a) eqn:LF.
     - eapply arena_new_block_spec; eauto.
-    - inversion E; subst. sp; auto. left; reflexivity. intros _. split; auto. apply last_full_nonempty; auto. }
-  destruct (if last_full a then arena_new_block a h else (h, a, true)) as [[h5 a2] okr] eqn:ER.
-  destruct (R _ _ _ eq_refl) as [[[Wl2 Wb2] I5] [AM2 [BS2 [LK [OKL FZ]]]]].
+    - inversion E; subst. sp; auto; try discriminate. left; reflexivity. intros _. split; auto. apply last_full_nonempty; auto. }
+  destruct (if last_full a then arena_new_block g a h else (h, a, true)) as [[h5 a2] okr] eqn:ER.
+  destruct (R _ _ _ eq_refl) as [[[Wl2 Wb2] I5] [AM2 [BS2 [LK [OKL [FZ [GL NB]]]]]]].
   destruct okr.
   2:{ inversion H; subst. split; [split; [split; auto|auto]|].
       sp; auto; try discriminate; try (intros Fz; destruct (FZ Fz); discriminate). }
